@@ -17,7 +17,8 @@ LEVEL = "exploration"
 RULE = ("generated package libraries (1-2 top-level packages, nested packages, package constants referenced by "
         "qualified and enclosing-scope names, models with components of and extends from other library models) split "
         "into 2-4 files with within clauses (a package's own file vs files declaring classes within it); all "
-        "permutations of the merge order (<=24); distinct = digest of the file set; non-trivial = at least one file "
+        "permutations of the merge order (<=24), then four on-disk layouts (file-name orders, equal base names in "
+        "sub-directories, sibling library_folders with a common name prefix); distinct = digest of the file set; non-trivial = at least one file "
         "declares a class within a package whose own definition (with constants) is in another file")
 ASSUMPTIONS = ["flat results are compared through the semantic projection of checks/c06 (names, types, prefixes, "
                "attribute and equation expression trees)"]
